@@ -162,6 +162,12 @@ class Builder:
         self.connect(outs, n)
         if self.may_raise(st, kind):
             self.add_exc(n)
+        elif getattr(self, "in_try", 0) > 0:
+            # inside a try body with handlers any statement may be the one that raises (a subscript, an attribute ...): the
+            # handlers are reachable from each of them
+            for kind_, target, types in self.exc_targets():
+                if kind_ == "handler":
+                    self.g.edge(n, target, "exc")
         return n
 
     def block(self, stmts, outs):
@@ -264,7 +270,9 @@ class Builder:
         self.handlers.append(targets)
         if has_final:
             self.finals.append(st.finalbody)
+        self.in_try = getattr(self, "in_try", 0) + (1 if st.handlers else 0)
         body_out = self.block(st.body, outs)
+        self.in_try -= (1 if st.handlers else 0)
         self.handlers.pop()
         # else clause runs with the outer handlers (+finally)
         after_handlers = []
